@@ -26,7 +26,10 @@ type clipRingEv struct {
 	St    int          `json:"st"`
 	NT    int          `json:"nt"`
 	S     int          `json:"s"`
+	PSt   int          `json:"pstable"`
 }
+
+var c08Prev prevTracker
 
 func closedRing(v [][2]int) [][2]int {
 	return append(append([][2]int{}, v...), v[0])
@@ -101,6 +104,7 @@ func c08Ring(c *ctx, fn string, box [4]int, in [][][][2]int, st int) [][][][2]in
 		return nil
 	}
 	e.Out, e.Shape = q, shape
+	e.PSt = c08Prev.check(out)
 	if len(q) > 0 && !eqMP(q, in) {
 		e.NT = 1
 	}
